@@ -133,11 +133,14 @@ def check_type(P, ctx, T):
     openf = P.slot(T, 'Stream', 'sopen')
     HND, NEWH = 70000, 71000
 
-    def run(fname, handle, err, open_ok=True, extra=()):
+    def run(fname, handle, err, open_ok=True, extra=(), other_err=0):
         fn_ = P.fn(fname)
         ev_ = []
 
         def call(nm, e, it):
+            if nm in ('fflush', 'fseek', 'ftell', 'ferror', 'feof', 'fileno', 'clearerr', 'fsync'):
+                # any other library call on the stream on the way: it succeeds, or (other_err) reports a failure
+                return -1 if other_err else 0
             if nm == closer:
                 ev_.append(('close', it.ev(e[2][0])))
                 return err
@@ -175,6 +178,13 @@ def check_type(P, ctx, T):
                 if not okc:
                     res['close'] = res['close'] or '%s: calls %s, the handle is %s afterwards, %s' % (lab, ev_ or 'nothing', 'NULL' if h == 0 else 'still set (the next close hits the disposed stream)',
                                                                                                    'returns' if r[0] == 'ret' else 'raises %s' % (r[1][1] if isinstance(r[1], tuple) else r[1]))
+                # ... and when another library call made on the way (a flush before the close) reports a failure: the stream is still closed
+                # once and the handle cleared, or close, del and the with exit all leave the descriptor open for good
+                r, ev_, h = run(closef, handle, err, other_err=1)
+                if r[0] == 'stuck':
+                    unsup = unsup or 'close, %s: %s' % (lab, r[1])
+                elif not (ev_ == [('close', HND)] and h == 0):
+                    res['close'] = res['close'] or '%s, a library call made before it reports a failure: calls %s, the handle is %s afterwards' % (lab, ev_ or 'no ' + closer, 'NULL' if h == 0 else 'still set: the stream is never closed')
             # destructor
             r, ev_, h = run(delf, handle, err)
             if r[0] == 'stuck':
